@@ -1,6 +1,7 @@
 # K-ctx: runs a history tree of tracing contexts / site executions / raises on real tracers; snapshots process state.
 import builtins
 import json
+import os
 import sys
 
 import pyccolo as pyc
@@ -40,6 +41,25 @@ class Blocker:
         return None
 
 
+_MOD_DIR = [None]
+
+
+def _module_dir():
+    """source files imported through pyccolo's loader: one that does not compile, one that raises while executing, a good one"""
+    if _MOD_DIR[0] is None:
+        import atexit
+        import shutil
+        import tempfile
+        d = tempfile.mkdtemp(prefix="pyccctx-", dir="/var/tmp")
+        atexit.register(shutil.rmtree, d, True)
+        for name, src in (("verif_broken_mod", "def (:\n"), ("verif_raising_mod", "X = 1\nraise ValueError('at import')\n"), ("verif_good_mod", "Y = [q for q in range(2)]\n")):
+            with open(os.path.join(d, name + ".py"), "w") as f:
+                f.write(src)
+        sys.path.insert(0, d)
+        _MOD_DIR[0] = d
+    return _MOD_DIR[0]
+
+
 def do_import(which):
     import importlib
     try:
@@ -47,10 +67,15 @@ def do_import(which):
             importlib.import_module("verif_blocked_optional_dep")
         elif which == "missing":
             importlib.import_module("verif_surely_missing_module")
+        elif which in ("broken", "raising", "good"):
+            _module_dir()
+            sys.modules.pop("verif_%s_mod" % which, None)
+            importlib.invalidate_caches()
+            importlib.import_module("verif_%s_mod" % which)
         else:
             sys.modules.pop("colorsys", None)
             importlib.import_module("colorsys")
-    except ImportError:
+    except (ImportError, SyntaxError, ValueError):
         pass
 
 
